@@ -47,8 +47,14 @@ impl QuotedTripleStore {
         if let Some(&id) = self.components_to_id.get(&key) {
             return id;
         }
+        // the counter wraps to 0 after 0xFFFF_FFFF: never hand out a plain-range ID
+        assert!(
+            is_quoted_triple_id(self.next_qt_id),
+            "Quoted triple ID space exhausted: next_qt_id {} is outside the quoted triple ID range",
+            self.next_qt_id
+        );
         let id = self.next_qt_id;
-        self.next_qt_id += 1;
+        self.next_qt_id = self.next_qt_id.wrapping_add(1);
         self.id_to_components.insert(id, key);
         self.components_to_id.insert(key, id);
         id
